@@ -110,7 +110,18 @@ func (f *flattener) applies(obj *graphql.Object, fragment *graphql.Fragment) (bo
 // flattenFragments flattens all fragments at the current level. It inlines the
 // selections of each fragment, but does not descend down recursively into those
 // selections.
-func (f *flattener) flattenFragments(selectionSet *graphql.SelectionSet, typ *graphql.Object, target *[]*graphql.Selection) error {
+//
+// The selection set of a named fragment is shared by all of its spreads.
+// Inlining it once is enough, since mergeSameAlias would merge the copies again,
+// and inlining it at every spread takes time exponential in the size of a query
+// whose fragments spread one another repeatedly. visited holds the selection
+// sets inlined so far.
+func (f *flattener) flattenFragments(selectionSet *graphql.SelectionSet, typ *graphql.Object, target *[]*graphql.Selection, visited map[*graphql.SelectionSet]struct{}) error {
+	if _, ok := visited[selectionSet]; ok {
+		return nil
+	}
+	visited[selectionSet] = struct{}{}
+
 	// Start with the non-fragment selections.
 	*target = append(*target, selectionSet.Selections...)
 
@@ -128,7 +139,7 @@ func (f *flattener) flattenFragments(selectionSet *graphql.SelectionSet, typ *gr
 			return err
 		}
 		if ok {
-			if err := f.flattenFragments(fragment.SelectionSet, typ, target); err != nil {
+			if err := f.flattenFragments(fragment.SelectionSet, typ, target, visited); err != nil {
 				return err
 			}
 		}
@@ -234,7 +245,7 @@ func (f *flattener) flatten(selectionSet *graphql.SelectionSet, typ graphql.Type
 		// Collect all selections on this object and merge selections
 		// with the same alias.
 		selections := make([]*graphql.Selection, 0, len(selectionSet.Selections))
-		if err := f.flattenFragments(selectionSet, typ, &selections); err != nil {
+		if err := f.flattenFragments(selectionSet, typ, &selections, make(map[*graphql.SelectionSet]struct{})); err != nil {
 			return nil, err
 		}
 		// Selections with the same alias are merged below and the merged
